@@ -339,6 +339,12 @@ class Fn:
             if lo[1] != INT:
                 raise TranslateError("%s: slice bound" % self.name)
             return "(py_slice_rev %s %s %s)" % (t, lo[0], stop), ARR
+        if isinstance(sl, ast.Slice) and ty == CONTENT and sl.step is None:
+            lo = ("(0)", INT) if sl.lower is None else self.expr(sl.lower, env, binds)
+            hi = ("(zlen %s)" % t, INT) if sl.upper is None else self.expr(sl.upper, env, binds)
+            if lo[1] != INT or hi[1] != INT:
+                raise TranslateError("%s: slice bounds" % self.name)
+            return "(py_slice %s %s %s)" % (t, lo[0], hi[0]), CONTENT
         if isinstance(sl, ast.Slice):
             if sl.step is not None or ty != ARR:
                 raise TranslateError("%s: slice with a step / of %s" % (self.name, ty))
@@ -385,7 +391,7 @@ class Fn:
             c, tc = self.expr(g.ifs[0], envf, bf)
             if tc != BOOL:
                 raise TranslateError("%s: filter condition is not boolean" % self.name)
-            out = {STR: STRLIST, INT: INTLIST}.get(tx)
+            out = {STR: STRLIST, INT: INTLIST, OPTELT: CONTENT}.get(tx)
             if out is None:
                 raise TranslateError("%s: filter over %s" % (self.name, tx))
             plain = isinstance(node.elt, ast.Name) and node.elt.id == x
@@ -634,6 +640,11 @@ class Fn:
             r = self.fresh()
             binds.append((r, "py_vstack %s" % t))
             return r, MAT2
+        if dotted == "np.mean" and len(node.args) == 1:
+            t, ty = self.expr(node.args[0], env, binds)
+            if ty != YLIST:
+                raise TranslateError("%s: np.mean(%s)" % (self.name, ty))
+            return "(ymean %s)" % t, YVAL
         if dotted == "np.arange" and len(node.args) == 1:
             t, ty = self.expr(node.args[0], env, binds)
             if ty != INT:
@@ -1496,6 +1507,15 @@ def frag_fit_ys(fn):
     return _fit_assign(fn, "ys")
 
 
+def frag_plateau_avg(fn):
+    """Corr.plateau: the branch `elif method in ["avg", "average", "mean"]:` (the value it returns)"""
+    want = _d(ast.parse('method in ["avg", "average", "mean"]', mode="eval").body)
+    hits = [x for x in ast.walk(fn) if isinstance(x, ast.If) and _d(x.test) == want]
+    if len(hits) != 1:
+        raise TranslateError("Corr.plateau: the averaging branch was not found exactly once")
+    return hits[0].body
+
+
 def frag_corr_scalar_branch(fn):
     """The body of the `elif isinstance(y, (Obs, int, float, CObs, complex)):` branch of a binary operator of Corr."""
     first = [st for st in fn.body if not (isinstance(st, ast.Expr) and isinstance(st.value, ast.Constant))][0]
@@ -1543,6 +1563,8 @@ CORR_SIGS = [
          extra_params=[("v_content", CONTENT), ("v_N", INT), ("v_y", SCAL)], env={"y": SCAL}, aliases=_CORR_ALIASES, hints={"newcontent": CONTENT}, **_CORR),
     dict(coq="corr_mul_scalar", py="Corr.__mul__", fragment=frag_corr_scalar_branch, params=[], ret=CONTENT,
          extra_params=[("v_content", CONTENT), ("v_N", INT), ("v_y", SCAL)], env={"y": SCAL}, aliases=_CORR_ALIASES, hints={"newcontent": CONTENT}, **_CORR),
+    dict(coq="corr_plateau_avg", py="Corr.plateau", fragment=frag_plateau_avg, params=[], ret=YVAL,
+         extra_params=[("v_content", CONTENT), ("v_plateau_range", INTLIST)], env={"plateau_range": INTLIST}, aliases=_CORR_ALIASES, **_CORR),
     dict(coq="corr_fit_xs", py="Corr.fit", fragment=frag_fit_xs, params=[], ret=INTLIST,
          extra_params=[("v_content", CONTENT), ("v_fitrange", INTLIST)], env={"fitrange": INTLIST}, aliases=_CORR_ALIASES, **_CORR),
     dict(coq="corr_fit_ys", py="Corr.fit", fragment=frag_fit_ys, params=[], ret=YLIST,
@@ -1559,7 +1581,7 @@ SORT_SIGS = [
 SECTION_HEADERS = {
     "sortvec": ["Section SortVec.", "Variables V M : Type.", "Variable rowset : M -> Z -> V -> M.", "Variable absdet : M -> Q."],
     "corr": ["Section CorrOps.", "Variables E S : Type.", "Variables eadd esub emul ediv : E -> E -> E.", "Variable escale : Q -> E -> E.",
-             "Variables eaddS emulS edivS : E -> S -> E.", "Variable Y : Type.", "Variable efirst : E -> Y."],
+             "Variables eaddS emulS edivS : E -> S -> E.", "Variable Y : Type.", "Variable efirst : E -> Y.", "Variable ymean : list Y -> Y."],
 }
 
 
